@@ -32,6 +32,7 @@ CONSTANTS
     MaxHist,    \* bound on the number of user-level steps
     MaxCmds,    \* bound on the number of commands among them
     UnlockedBug, \* TRUE: redo-unlocked re-runs its deps instead of its target (pinned defect)
+    SelfDepPanics, \* TRUE: pinned behaviour, add_dep asserts self.id != src.id (exit 101)
     NameSeq     \* all file names in the order of SQL `order by name` (TLC cannot compare strings)
 
 Files == Plain \cup DoFiles
@@ -57,6 +58,7 @@ VARIABLES
              \*   gh.seen[t] what t's last successful build saw: [built, out, deps, stamped, val]
              \*   gh.fails   targets whose build failed in the command in flight
              \*   gh.src     files redo has accepted as sources (static) since they were last written
+             \*   gh.codes   non-zero job statuses recorded in the command in flight ("(exit N)" log lines)
 
 vars == <<fs, tmp, clock, w, runid, locks, procs, cmd, hist, ran, ncmds, pool, gh>>
 
@@ -126,7 +128,7 @@ Init ==
     /\ pool = 0
     /\ gh = [cg |-> [n \in Files |-> 0],
              seen |-> [n \in Plain |-> NeverBuilt],
-             fails |-> {}, src |-> {}]
+             fails |-> {}, src |-> {}, codes |-> {}]
 
 Bump(n) == [gh EXCEPT !.cg[n] = @ + 1, !.src = @ \ {n}]
 
@@ -213,7 +215,7 @@ StartBuild(c) ==
                                            !.targs = c.targs, !.tok = 1])
     \* only `redo -jN` creates more than one token; redo-ifchange at top level runs -j1
     /\ pool' = IF c.kind = "redo" THEN c.j - 1 ELSE 0
-    /\ gh' = [gh EXCEPT !.fails = {}]
+    /\ gh' = [gh EXCEPT !.fails = {}, !.codes = {}]
     /\ UNCHANGED <<fs, tmp, clock, w, locks, hist>>
 
 EndBuild ==
@@ -222,7 +224,7 @@ EndBuild ==
     /\ procs' = << >>
     /\ cmd' = Idle
     /\ hist' = Append(hist, [a |-> "cmd", kind |-> cmd.kind, targs |-> cmd.targs, keep |-> cmd.keep, j |-> cmd.j,
-                             rc |-> procs[Top].rc, ran |-> ran, snap |-> Snapshot])
+                             rc |-> procs[Top].rc, ran |-> ran, codes |-> gh.codes, snap |-> Snapshot])
     /\ ran' = << >>
     /\ UNCHANGED <<fs, tmp, clock, w, runid, locks, ncmds, pool, gh>>
 
@@ -269,8 +271,8 @@ Declare(p) ==
           /\ procs' = [procs EXCEPT ![p].pc = "pass1"]
           /\ UNCHANGED <<fs, tmp, clock, w, runid, locks, cmd, hist, ran, ncmds, pool, gh>>
        ELSE IF P.tgt \in {P.targs[k] : k \in 1..Len(P.targs)} THEN
-          \* add_dep asserts self.id != src.id (state.rs:763)
-          ErrorExit(p, 101, w)
+          \* a target that asks for itself is a dependency cycle of length 1 (add_dep, state.rs)
+          ErrorExit(p, IF SelfDepPanics THEN 101 ELSE 208, w)
        ELSE
           LET F[k \in 0..Len(P.targs)] ==
                  IF k = 0 THEN FromName(w, P.tgt) ELSE AddDep(F[k-1], P.tgt, "m", P.targs[k])
@@ -426,7 +428,7 @@ RecCommit(p, j) ==
     /\ procs' = [procs EXCEPT ![p].jobs = @ \ {j},
                               ![p].err = IF j.rv # 0 THEN 1 ELSE @]
     /\ gh' = IF j.rv # 0
-             THEN [gh EXCEPT !.fails = @ \cup {j.t}, !.seen[j.t].built = FALSE]
+             THEN [gh EXCEPT !.fails = @ \cup {j.t}, !.seen[j.t].built = FALSE, !.codes = @ \cup {j.rv}]
              ELSE LET old  == gh.seen[j.t]
                       same == j.stamped /\ old.built /\ old.stamped /\ old.val = ReadVal(j.t)
                       g1   == IF same THEN old.out ELSE gh.cg[j.t] + 1   \* same content: same generation as before
